@@ -8,6 +8,7 @@ package document
 
 import (
 	"fmt"
+	"reflect"
 	"sort"
 	"strings"
 )
@@ -84,4 +85,55 @@ func (d *Document) VerifPartNames() []string {
 	}
 	sort.Strings(ks)
 	return ks
+}
+
+// VerifShallowState is a reflective, shallow fingerprint of every field of the Document struct (and,
+// one level down, of the structs its unexported pointers lead to): integers and booleans by value;
+// strings, slices and maps by length; pointers and interfaces by nil-ness.  It is computed by
+// reflection at run time, so a field added to the Document (a cache, a counter, a remembered
+// pointer) becomes part of the state keys of the explicit-state searches without any change here:
+// two histories whose hidden state differs are not merged.  Used for state keys only.
+func (d *Document) VerifShallowState() string {
+	var b strings.Builder
+	shallowFields(&b, reflect.ValueOf(d).Elem(), 1)
+	return b.String()
+}
+
+func shallowFields(b *strings.Builder, v reflect.Value, depth int) {
+	t := v.Type()
+	for i := 0; i < v.NumField(); i++ {
+		f := v.Field(i)
+		name := t.Field(i).Name
+		if name == "Body" {
+			continue // the body is the searches' explicit state
+		}
+		switch f.Kind() {
+		case reflect.Bool:
+			fmt.Fprintf(b, "%s=%v;", name, f.Bool())
+		case reflect.Int, reflect.Int8, reflect.Int16, reflect.Int32, reflect.Int64:
+			fmt.Fprintf(b, "%s=%d;", name, f.Int())
+		case reflect.Uint, reflect.Uint8, reflect.Uint16, reflect.Uint32, reflect.Uint64:
+			fmt.Fprintf(b, "%s=%d;", name, f.Uint())
+		case reflect.String, reflect.Slice, reflect.Map:
+			fmt.Fprintf(b, "%s#%d;", name, f.Len())
+		case reflect.Ptr:
+			if f.IsNil() {
+				fmt.Fprintf(b, "%s=nil;", name)
+			} else if depth > 0 && f.Elem().Kind() == reflect.Struct && t.Field(i).PkgPath != "" {
+				fmt.Fprintf(b, "%s{", name)
+				shallowFields(b, f.Elem(), depth-1)
+				b.WriteString("};")
+			} else {
+				fmt.Fprintf(b, "%s=set;", name)
+			}
+		case reflect.Interface:
+			fmt.Fprintf(b, "%s=%v;", name, !f.IsNil())
+		case reflect.Struct:
+			if depth > 0 {
+				fmt.Fprintf(b, "%s{", name)
+				shallowFields(b, f, depth-1)
+				b.WriteString("};")
+			}
+		}
+	}
 }
